@@ -38,7 +38,7 @@ def Conn.effWait (c : Conn) (dflt : Int) : Int := if c.minWait ≥ 0 then c.minW
 
 structure LineRec where
   agency : Nat
-  mode : Nat            -- 0 bus, 1 rail, 2 "transferable"
+  mode : Nat            -- 0 tram, 1 tramTrain (two modes that share one extended GTFS route type in the server's table), 2 "transferable"
 deriving Repr, Inhabited, DecidableEq
 
 structure PathRec where
